@@ -16,6 +16,10 @@ mod c12;
 mod c13;
 mod c14;
 mod c15;
+mod c16;
+mod c17;
+mod c18;
+mod c19;
 mod cli;
 mod c20;
 mod o1;
@@ -40,6 +44,10 @@ fn main() {
         "c12" => c12::run(),
         "c13" => c13::run(),
         "c20" => c20::run(),
+        "c16" => c16::run(),
+        "c17" => c17::run(),
+        "c18-cli" => c18::run(),
+        "c19" => c19::run(),
         "c14" => c14::run(),
         "c14-child" => c14::child(&args[2], &args[3]),
         "c15" => c15::run(),
